@@ -293,7 +293,26 @@ def c15(k, ctx):
     ctx.assumptions = ["TLC 1.8 + Json/IOUtils", "inputs are position tags (values 1..n), so every output index is observable"]
 
 
-PIPELINES = {"C15": c15, "C18": c18, "C03": c03, "C04": c04, "C05": c05, "C01": c01, "C10": c10, "C08": c08, "C11": c11, "C02": c02, "C09": c09, "C17": c17}
+def c14(k, ctx):
+    ctx.rule = ("one case = one modulated triple/bit (through four memory layouts of the input array), one demodulated sample (polar grid radius 0..1000 x 16/64 angles x sigma 0.01..100, "
+                "random samples, BPSK line), or one noiseless round trip (every bit sequence up to length 9 (12) for 8PSK and 6 for BPSK, random long ones, four layouts); "
+                "non-trivial = distinct demodulation cases whose sample is not a constellation point + round trips of at least two symbols")
+    ctx.tlc_mc("MC_Psk")
+    ctx.vh("gen", "i2s")
+    recs, rej = ctx.validate("Trace_C14")
+    ctx.require_events("Table", "Mod8", "ModB", "Dem8", "DemB", "Round")
+    for r in recs:
+        if r["e"] in ("Dem8", "DemB") and r["o"] == "ok":
+            ctx.nontrivial_keys.add(k.key(r["e"], r.get("dbg", r["i"])))
+        elif r["e"] == "Round" and len(r["bits"]) >= (6 if r["mod"] == "8psk" else 2):
+            ctx.nontrivial_keys.add(k.key(r["mod"], r["layout"], r["bits"]))
+    ctx.extra["max_err_minus_scale_cb"] = max([max(x["err_cb"] for x in r["llr"]) - max(0, r["scale_cb"]) for r in recs if r["e"] == "Dem8" and r["o"] == "ok"])
+    ctx.samples = [k.sample_case(recs, 1), k.sample_case(recs, 60), k.sample_case(recs, recs[-1]["i"])]
+    ctx.assumptions = ["TLC 1.8 + Json/IOUtils", "posterior reference: max-shifted log-sum-exp in f64 over the constellation table of Psk.tla (the harness copy is checked against the spec by the Table event)",
+                       "tolerance 1e-13 * max(1, max_s |<r,s>|/sigma^2) (Trace_C14.tla)"]
+
+
+PIPELINES = {"C14": c14, "C15": c15, "C18": c18, "C03": c03, "C04": c04, "C05": c05, "C01": c01, "C10": c10, "C08": c08, "C11": c11, "C02": c02, "C09": c09, "C17": c17}
 NOT_YET = {}
 
 
